@@ -325,3 +325,14 @@ def g_measure(rng, level=0, n_random=300):
 def g_project(rng, level=0, n_random=300):
     for a in g_measure(rng, level, n_random):
         yield {'gs_stb': a['gs_stb'], 'gs_obs': a['gs_obs'], 'r': a['r']}
+
+
+@gen(U + 'stabilizer_postselection')
+def g_postsel(rng, level=0, n_random=300):
+    for _ in range(n_random):
+        N = int(rng.integers(1, 4))
+        gs, ps = rand_tableau(rng, N)
+        ob = bits(rng, 2 * N)
+        if rng.integers(0, 3) == 0:
+            ob = gs[int(rng.integers(0, N))].copy()
+        yield {'gs_stb': gs, 'ps_stb': ps, 'gs_ob': ob, 'ps_ob': int(2 * rng.integers(0, 2))}
